@@ -380,7 +380,11 @@ func RunFamily(f Family, o Options) *FamilyReport {
 			os.MkdirAll(keep, 0o755)
 			for _, fn := range []string{traceFile, verdictFile} {
 				if b, err := os.ReadFile(fn); err == nil {
-					os.WriteFile(filepath.Join(keep, f.Name()+"."+filepath.Base(fn)), b, 0o644)
+					name := f.Name() + "." + filepath.Base(fn)
+					if o.OnlyCases != nil {
+						name = "rerun." + name
+					}
+					os.WriteFile(filepath.Join(keep, name), b, 0o644)
 				}
 			}
 		}
